@@ -35,22 +35,46 @@ trap.__pyvc_thm__ = True
 def _setup_ic(ctx, cfg):
     n = ctx.fresh("n", "int")
     ctx.assume(n >= 2)
-    d = dict(y=_fa(ctx, "y", (n,)))
+    if cfg.get("ndim", 1) == 1:
+        d = dict(y=_fa(ctx, "y", (n,)))
+        d["x"] = _fa(ctx, "x", (n,)) if cfg["x"] else None
+        return d
+    m = ctx.fresh("m", "int")
+    ctx.assume(m >= 1)
+    axis = cfg["axis"]
+    d = dict(y=_fa(ctx, "y", (n, m) if axis == 0 else (m, n)), axis=axis)
     d["x"] = _fa(ctx, "x", (n,)) if cfg["x"] else None
     return d
 
 
-c_ic = contract(MM + "integrate_column", prop=P, setup=_setup_ic, configs=[{"x": True}, {"x": False}], pure=False, result="real",
-                env={"trap": trap},
-                ensures=["result == trap(y, x, len(y))"],
-                canaries=["result == 0"])
+def trap_nd(result, y, x, axis):
+    """1-d: the trapezoid sum; 2-d: the trapezoid sum along `axis` for every index j of the other axis"""
+    if y.ndim == 1:
+        return result == trap(y, x, len(y))
+    n = y.shape[axis]
+    m = y.shape[1 - axis]
+    return forall(0, m, lambda j: result[j] == trap(array_of(n, lambda k: y[k, j] if axis == 0 else y[j, k]), x, n))
+
+
+trap_nd.__pyvc_thm__ = True
+c_ic = contract(MM + "integrate_column", prop=P, setup=_setup_ic, pure=False,
+                configs=[{"x": True}, {"x": False}, {"ndim": 2, "axis": 0, "x": True}, {"ndim": 2, "axis": 1, "x": True},
+                         {"ndim": 2, "axis": 0, "x": False}, {"ndim": 2, "axis": 1, "x": False}],
+                result=lambda ctx, env: ctx.fresh("col_int", "real") if env["y"].ndim == 1 else _fa(ctx, "col_int", (env["y"].shape[1 - env["axis"]],)),
+                env={"trap": trap, "trap_nd": trap_nd},
+                ensures=["trap_nd(result, y, x, axis)"],
+                canaries=["trap_nd(result, y * 0, x, axis)"])
 
 
 def _ic_sampler(rng):
     n = rng.randint(2, 6)
-    y = _np.array([rng.uniform(-3, 3) for _ in range(n)])
     x = _np.cumsum([rng.uniform(0.1, 2) for _ in range(n)]) if rng.random() < 0.7 else None
-    return dict(y=y, x=x)
+    if rng.random() < 0.5:
+        return dict(y=_np.array([rng.uniform(-3, 3) for _ in range(n)]), x=x)
+    m = rng.randint(1, 4)
+    axis = rng.randint(0, 1)
+    y = _np.array([[rng.uniform(-3, 3) for _ in range(m)] for _ in range(n)])
+    return dict(y=y if axis == 0 else y.T.copy(), x=x, axis=axis)
 
 
 c_ic.sampler = _ic_sampler
@@ -341,3 +365,32 @@ def bounded_isa(rng, tier):
             failures.append({"h": hk, "p": pk, "T(h)": a, "T(p)": b})
         samples.append({"h": hk, "p": pk, "T": a})
     return {"evaluations": 8, "distinct_nontrivial": 8, "failures": failures, "samples": samples[:3], "exhaustive": True}
+
+
+@bounded(P, "integrate-column-nd", "arrays of rank 1..4 with sides 2..5, EVERY axis (positive and negative), x = None / 1-d / n-d, "
+         "compared element by element with a per-column trapezoid sum (rank > 2 is outside the proved tier)")
+def bounded_nd(rng, tier):
+    import itertools
+    evals, failures, samples, distinct = 0, [], [], set()
+    shapes = [(4,), (3, 5), (5, 3), (4, 3, 5), (3, 4, 4), (2, 3, 4, 5)] + ([(5, 4, 3), (3, 3, 3, 3)] if tier == "thorough" else [])
+    for shape in shapes:
+        y = _np.array([rng.uniform(-2, 2) for _ in range(int(_np.prod(shape)))]).reshape(shape)
+        for axis in list(range(len(shape))) + [-k for k in range(1, len(shape) + 1)]:
+            n = shape[axis]
+            x1 = _np.cumsum([rng.uniform(0.2, 1.5) for _ in range(n)])
+            for x in (None, x1):
+                evals += 1
+                distinct.add((shape, axis, x is None))
+                got = MC.integrate_column(y, x, axis=axis)
+                ym = _np.moveaxis(y, axis, -1)
+                xs = _np.arange(n) if x is None else x
+                want = _np.zeros(ym.shape[:-1])
+                for idx in itertools.product(*[range(s) for s in ym.shape[:-1]]):
+                    col = ym[idx]
+                    want[idx] = sum((xs[k + 1] - xs[k]) * (col[k] + col[k + 1]) / 2 for k in range(n - 1))
+                if _np.shape(got) != want.shape or not _np.allclose(got, want, rtol=1e-10, atol=1e-12):
+                    failures.append({"shape": shape, "axis": axis, "x": None if x is None else x.tolist(),
+                                     "got_shape": list(_np.shape(got)), "want_shape": list(want.shape)})
+                elif len(samples) < 3:
+                    samples.append({"shape": shape, "axis": axis, "x_given": x is not None})
+    return {"evaluations": evals, "distinct_nontrivial": len(distinct), "failures": failures[:5], "samples": samples}
